@@ -94,7 +94,8 @@ var l1Comps = []string{"alpha", "beta", "client", "one", "two", "v1", "v2", "cor
 	"yaml.v3", "my_pkg", "mypkg", "foo-bar", "foobar", "x", "type", "range", "3d", "sync", "http", "net", "s", "s1",
 	"n", "mock", "Upper", "a~b", "a.b", "vendor", "internal", "pkg", "q"}
 var l1Names = []string{"alpha", "beta", "client", "v1", "yaml", "sync", "http", "x", "q", "s", "s1", "n", "mock", "api",
-	"oneclient", "twoclient", "corev1", "appsv1", "z", "bar", "foobar", "my_pkg", "time", "context", "errors"}
+	"oneclient", "twoclient", "corev1", "appsv1", "z", "bar", "foobar", "my_pkg", "time", "context", "errors",
+	"clientMoqParam", "v1MoqParam", "sMoqParam", "clientMoqParam", "v1MoqParam"}
 var l1VarNames = []string{"", "", "", "_", "s", "s1", "s2", "n", "n1", "err", "v", "t", "tMoqParam", "mock", "callInfo",
 	"sync", "client", "oneclient", "twoclient", "clientMoqParam", "v1", "corev1", "appsv1", "alpha", "yaml", "goyaml",
 	"x", "q", "api", "v1api", "in", "in1", "out", "sOut", "errOut", "string", "int", "ctx", "id", "url"}
